@@ -87,7 +87,7 @@ def gen(rng, tier, index):
         "via_app": rng.random() < 0.15,
         "scope_edges": [rng.randint(0, 7) for _ in range(rng.randint(1, 2))],
         "bounds": rng.random() < 0.25,
-        "checkpoint": rng.random() < 0.08,
+        "checkpoint": rng.random() < 0.12,
     }
     return plan
 
@@ -329,6 +329,11 @@ def run(plan, tier="quick") -> RunResult:
                 if optimise_checked(plan, lf, n, plan["local2"], res, f"sweep n={n}", replay, counter,
                                     inject=(n % 3 == 0)) is False:
                     return _finish(res, h, plan)
+        # checkpointing on a simulated clock, then a *stale* checkpoint: a
+        # file left by an earlier, differently-started fit of the same function
+        if plan["checkpoint"]:
+            if _checkpoint_scenario(plan, aln, tree, saved_rules, res, replay, counter) is False:
+                return _finish(res, h, plan)
         # the same pair through the hypothesis app
         if plan["via_app"] and plan["kind"] in ("matrix",):
             from cogent3 import get_app
@@ -364,6 +369,70 @@ def run(plan, tier="quick") -> RunResult:
             except Exception as e:  # noqa: BLE001
                 res.add(f"C16.app-raised/{pair}:{type(e).__name__}", f"hypothesis app raised {e!r}", replay)
     return _finish(res, h, plan)
+
+
+def _checkpoint_scenario(plan, aln, tree, saved_rules, res, replay, counter):
+    import os
+    import shutil
+    import tempfile
+
+    from cogent3.util import checkpointing
+
+    import simsql
+
+    base = "/dev/shm" if os.path.isdir("/dev/shm") else tempfile.gettempdir()
+    scratch = tempfile.mkdtemp(prefix="verif-c16-", dir=base)
+    ck = os.path.join(scratch, "anneal.chk")
+    clock = simsql.SimClock(steps=[0.0, 5.0, 0.0, 700.0, 1.0])  # ties and jumps
+    real_time = checkpointing.time
+
+    class _T:
+        time = staticmethod(clock.time)
+
+    checkpointing.time = _T
+    try:
+        first = build(plan, "alt", aln, tree)
+        first.apply_param_rules(saved_rules)
+        kw = opt_kwargs(plan, max(plan["n2"], 40), False)
+        try:
+            with failing_evaluations(0, 1, "arith", counter):
+                first.optimise(filename=ck, interval=3, **kw)
+        except Exception as e:  # noqa: BLE001
+            res.add(f"C16.optimise-raised/checkpointing:{type(e).__name__}", f"optimise with filename raised {e!r}", replay)
+            return False
+        if not os.path.exists(ck):
+            res.probe("no-checkpoint-written")
+            return None
+        res.fault("checkpoint_written")
+        # a second, differently started fit finds the stale file
+        second = build(plan, "alt", aln, tree)
+        second.apply_param_rules(saved_rules)
+        pars = [p for p in second.get_param_names() if p not in ("mprobs", "length", "bprobs", "rate")]
+        for k, p in enumerate(pars[:2]):
+            try:
+                second.set_param_rule(p, init=round(0.3 + plan["start"][(k + 3) % 8] * 2.0, 4))
+            except Exception:  # noqa: BLE001
+                pass
+        before = second.lnL
+        kw2 = opt_kwargs(plan, plan["n2"], None if plan["local2"] is True else plan["local2"])
+        try:
+            with failing_evaluations(0, 1, "arith", counter):
+                second.optimise(filename=ck, interval=3, **kw2)
+        except Exception as e:  # noqa: BLE001
+            # refusing a checkpoint that does not match is legitimate
+            res.probe(f"stale-checkpoint-refused:{type(e).__name__}")
+            return None
+        res.fault("stale_checkpoint")
+        res.executions += 2
+        after = second.lnL
+        if not (after >= before - 1e-8 * max(1.0, abs(before))):
+            res.add("C16.lost-likelihood/stale-checkpoint",
+                    f"optimise resumed from a stale checkpoint: before={before!r} after={after!r} kw={kw2}", replay)
+            return False
+        return check_bounds(second, res, "stale-checkpoint", "after resuming from a stale checkpoint", replay)
+    finally:
+        checkpointing.time = real_time
+        shutil.rmtree(scratch, ignore_errors=True)
 
 
 def _finish(res, h, plan):
